@@ -22,8 +22,12 @@ def children (cs : Classes) (h : Heap) (v : Val) : List Val :=
   match v with
   | .ref a =>
     match h[a]? with
+    -- a mapping: `dict` / `OrderedDict` and their subclasses give their VALUES; any other mapping type
+    -- (`types.MappingProxyType`: not registered as a mapping) is just an iterable — it gives its KEYS
     | some (.dict c es) =>
-      es.filterMap (fun e => if isA cs c "RDict" && isBad e.1 then none else some e.2)
+      if isA cs c "dict" then
+        es.filterMap (fun e => if isA cs c "RDict" && isBad e.1 then none else some e.2)
+      else es.map (·.1)
     -- a class registered by the user: the items as its `iterate` handler yields them
     | some (.list c xs) =>
       if (clsInfo cs c).reg == "off" then []
@@ -33,8 +37,11 @@ def children (cs : Classes) (h : Heap) (v : Val) : List Val :=
       if (clsInfo cs c).reg == "off" then []
       else if (clsInfo cs c).reg == "rev" then xs.reverse else xs
     | some (.set _ xs) => xs
+    -- attribute values are those of the `__dict__`: an object with `__slots__` only has none
     | some (.inst c as) =>
-      as.filterMap (fun p => if isA cs c "RObj" && isBad (.str p.1) then none else some p.2)
+      if (clsInfo cs c).hasDict then
+        as.filterMap (fun p => if isA cs c "RObj" && isBad (.str p.1) then none else some p.2)
+      else []
     | none => []
   | _ => []
 
@@ -74,9 +81,9 @@ def descend (cs : Classes) (h : Heap) (v : Val) : List Val :=
 /-- the access a non-wildcard step denotes -/
 def refAccess (cs : Classes) (h : Heap) (op : String) (cur arg : Val) : Option (Except PyExc Val) :=
   if op == "." then some (applyGet cs h .getattr cur arg)
-  else if op == "[" then
-    some (if isA cs (cur.clsName h) "RDict" && isBad arg then .error (exc "KeyError") else pyGetitem h cur arg)
+  else if op == "[" then some (pyItem cs h cur arg)
   else if op == "P" then some (applyGet cs h (getH cs (cur.clsName h)) cur arg)
+  else if op == "+" then some (pyAdd cur arg)
   else none
 
 /-- keep the entries on which the remaining steps succeed -/
@@ -135,6 +142,11 @@ def ignoresMiss : MutKind → Bool
   | .delete _ ignore => ignore
   | .assign .. => false
 
+/-- an Assign built with a `missing` factory -/
+def usesMissing : MutKind → Bool
+  | .assign _ _ missing => missing
+  | .delete .. => false
+
 /-- Assign / Delete whose destination path is `steps ++ [(op, key)]`: **every entry** the parent
     path addresses is operated on, in order; with `ignore_missing` an entry that lacks the key /
     index / attribute is left alone and the following entries are still operated on -/
@@ -162,7 +174,14 @@ inductive Obs where
   | ok (r : Res)
   | pae                         -- a PathAccessError reached the caller (no wildcard before it)
   | other (cls : String)
-  | mutated (heap : Heap) (err : Option String)   -- Assign/Delete: heap afterwards, error class
+  /-- Assign/Delete ran: heap afterwards, error class; `same`: the call returned the very target
+      (meaningful when there is no error) -/
+  | mutated (heap : Heap) (err : Option String) (same : Bool)
+  /-- Assign/Delete: the parent path raised PathAccessError; the heap afterwards -/
+  | paeAt (heap : Heap)
+  /-- `Assign(missing=…)` whose parent path raised PathAccessError: the missing part is created
+      (C11's subject; no wildcard can lie in front of the failing step) -/
+  | backfill
   deriving Repr
 
 def merrName (kind : MutKind) : MErr → String
@@ -178,17 +197,23 @@ def modelRead (cs : Classes) (h : Heap) (steps : List (String × Val)) (target :
   | .error (.pae _) => .pae
   | .error (.other c) => .other c
 
-/-- `Assign(path, val).glomit` / `Delete(path, ignore_missing).glomit` with the destination path
-    `steps ++ [(op, key)]`: the `try` is around the fetch of the parent only (`except
-    PathAccessError: if not self.ignore_missing: raise`), `_apply_for_each` runs in its `else` -/
+/-- `Assign(path, val, missing).glomit` / `Delete(path, ignore_missing).glomit` with the destination
+    path `steps ++ [(op, key)]`: the `try` is around the fetch of the parent only —
+    Delete: `except PathAccessError: if not self.ignore_missing: raise`;
+    Assign: `except PathAccessError as pae: if not self.missing: raise` … else the part of the path
+    from `pae.part_idx` on is created with the factory (`.backfill`) —
+    `_apply_for_each` runs in the `else`; both return the target -/
 def modelMutate (cs : Classes) (h : Heap) (steps : List (String × Val)) (key : Val) (kind : MutKind)
     (target : Val) : Obs :=
   match evalSteps cs h steps target with
-  | .error (.pae _) => if ignoresMiss kind then .mutated h none else .pae
+  | .error (.pae _) =>
+    if ignoresMiss kind then .mutated h none true
+    else if usesMissing kind then .backfill
+    else .paeAt h
   | .error (.other c) => .other c
   | .ok r =>
     let (h', e) := applyForEach (stars steps) (mutOp cs key kind) h r
-    .mutated h' (e.map (merrName kind))
+    .mutated h' (e.map (merrName kind)) true
 
 /-- The property on an observation: a read yields exactly the reference result (same entries —
     same addresses — in the same order and nesting); a write leaves exactly the heap the reference
@@ -204,12 +229,26 @@ def checkC14 (cs : Classes) (h : Heap) (steps : List (String × Val)) (mutn : Op
      | _, _ => false)
   | some (key, kind) =>
     (match refMutate cs h steps key kind target, obs with
-     | .ok (h', e), .mutated h'' e' => h' == h'' && e.map (merrName kind) == e'
-     | .error (.pae _), .pae => true
+     -- the heap the reference leaves, its error class, and — without an error — the target returned
+     | .ok (h', e), .mutated h'' e' same => h' == h'' && e.map (merrName kind) == e' && (e'.isSome || same)
+     -- a parent path that cannot be walked leaves the target as it was
+     | .error (.pae _), .paeAt h' => h' == h && !(usesMissing kind)
+     | .error (.pae _), .backfill => usesMissing kind
      | .error (.other c), .other c' => c == c'
      | _, _ => false)
 
 /-! ### well-formedness of a case -/
+
+/-- a `collections.UserDict` has the attribute `data`, a plain dict of the heap -/
+def userDictOK (cs : Classes) (h : Heap) (c : String) (as : List (String × Val)) : Bool :=
+  if isA cs c "UserDict" then
+    match as.find? (·.1 == "data") with
+    | some (_, .ref b) =>
+      (match h[b]? with
+       | some (.dict c' _) => isA cs c' "dict" && !(isA cs c' "RDict")
+       | _ => false)
+    | _ => false
+  else true
 
 /-- the registrations the model knows -/
 def regOK (r : String) : Bool := r == "" || r == "rev" || r == "off"
@@ -223,9 +262,16 @@ def distinctNames : List (String × Val) → Bool
     Python's `==`), every attribute name of an instance cell finds its own value, attribute
     objects have a `__dict__` -/
 def cellOK (cs : Classes) (h : Heap) : Obj → Bool
-  | .dict c es => isA cs c "dict" && (clsInfo cs c).reg == "" &&
+  | .dict c es =>
+      -- a dict (sub)class, or a mapping that is none (mappingproxy: iterable, no `__dict__`)
+      (isA cs c "dict" || ((clsInfo cs c).iterable && !(clsInfo cs c).hasDict && !(isA cs c "list") &&
+        !(isA cs c "tuple") && !(isA cs c "set") && !(isA cs c "frozenset"))) && (clsInfo cs c).reg == "" &&
       es.all (fun e => e.1.hashable h && dictLookup es e.1 == some e.2)
-  | .inst c as => (clsInfo cs c).hasDict && (clsInfo cs c).reg == "" && !(isA cs c "dict") && !(isA cs c "list") &&
+  | .inst c as =>
+      -- an attribute object: with a `__dict__`, or with `__slots__` only and then not iterable
+      -- (a UserDict keeps its entries in the dict cell `data`: `userDictOK`, checked by the driver)
+      ((clsInfo cs c).hasDict || !(clsInfo cs c).iterable) &&
+      (clsInfo cs c).reg == "" && !(isA cs c "dict") && !(isA cs c "list") &&
       !(isA cs c "tuple") && !(isA cs c "set") && !(isA cs c "frozenset") &&
       as.all (fun p => (as.find? (·.1 == p.1)).map (·.2) == some p.2) && distinctNames as
   | .list c _ => isA cs c "list" && !(isA cs c "dict") && regOK (clsInfo cs c).reg
